@@ -14,7 +14,7 @@ RULE = ("one process per batch under ThreadSanitizer, a fresh Stats instance per
         "{thread, op, args, call seq, result, return seq} and searched for a linearization against a sequential map; long conservation runs "
         "(N threads x M increments => exact sums, reset zeroes but keeps every key); raw clients: all 256 first bytes x {\\n, \\0, EOF, 31 "
         "more bytes, 40 bytes}, random strings, half-close, RST, close before reading the reply, stall past the 2 s timeout: each "
-        "connection gets <=1 reply which is JSON with error in {0,1} matching the mode byte and a body object, then EOF; the server "
+        "connection (incl. slow but live readers of a several-hundred-KiB `g` reply over 12000-40000 counters) gets <=1 reply which is JSON with error in {0,1} matching the mode byte and a body object, then EOF; the server "
         "survives (SIGPIPE has its default disposition, as in oomd) and keeps serving; ~Stats completes with clients dangling in every "
         "state; socket path lengths 100..120/200/4096 (ASan build): init fails iff the path does not fit sun_path with its NUL. Zero "
         "ThreadSanitizer reports. non-trivial = histories with real overlap (>=2 operations concurrent); distinct by history")
@@ -75,6 +75,15 @@ def gen_protocol(rng, firsts):
     return {"init": {"a": 7}, "threads": ths, "protocol": True, "dangling": rng.sample(["silent", "partial", "noread", "silent"], 3)}
 
 
+def gen_bulk(rng):
+    """a `g` reply of several hundred KiB to clients that read slowly but never stop for long (well inside the 2 s timeout)"""
+    n = rng.choice([12000, 20000, 40000])
+    ths = [[raw([ord("g"), 10], "slow", chunk=rng.choice([4096, 65536, 300000]), pause_ms=rng.choice([1, 10, 40]))],
+           [raw([ord("g"), 0], "slow", chunk=rng.choice([1000, 65536]), pause_ms=rng.choice([300, 500, 800]), pauses=rng.choice([1, 2]))],
+           [{"op": "inc", "k": "a", "v": 1}, raw([ord("g"), 10], "slow", chunk=1 << 20, pause_ms=0), {"op": "inc", "k": "a", "v": 1}]]
+    return {"init": {"a": 1}, "bulk_keys": n, "threads": ths, "protocol": True, "bulk": n}
+
+
 def gen_stall(rng):
     return {"init": {"a": 1}, "threads": [[raw([], "stall", stall_ms=2300), {"op": "cget"}], [raw([ord("g")], "stall", stall_ms=2300)],
                                            [{"op": "inc", "k": "a", "v": 1}, {"op": "cget"}]], "protocol": True, "stall": True}
@@ -97,6 +106,8 @@ def cases(seed, tier):
         scns.append({"mode": "histories", "seed": rng.randint(1, 10**6), "histories": [gen_protocol(rng, ch)], "kind": "protocol"})
     for _ in range(1 if quick else 20):
         scns.append({"mode": "histories", "seed": rng.randint(1, 10**6), "histories": [gen_stall(rng)], "kind": "stall"})
+    for _ in range(2 if quick else 20):
+        scns.append({"mode": "histories", "seed": rng.randint(1, 10**6), "histories": [gen_bulk(rng)], "kind": "bulk"})
     yield core.Case("C19-tsan", scns, {"n": len(scns)}, driver="stats", flavor="tsan")
     yield core.Case("C19-paths", [{"mode": "paths", "lengths": list(range(100, 121)) + [200, 4096], "kind": "paths"}], {}, driver="stats", flavor="asan")
 
@@ -123,6 +134,17 @@ def judge_history(v, scn, h, hout):
                 continue
             beh = o.get("behave", "normal")
             rep = o.get("reply")
+            if o.get("bulk") is not None:
+                b = o["bulk"]
+                v.count("bulk_replies")
+                v.count("bulk_reply_bytes", b.get("len", 0))
+                if b.get("timeout") or b.get("max_gap_ms", 0) >= 1500:
+                    # the client itself (loaded machine) stayed away close to the server's 2 s patience: not a verdict
+                    v.count("client_read_timeouts")
+                elif not b.get("json") or b.get("error") != 0 or not b.get("body_is_object") or b.get("bulk_keys") != h["bulk"] or b.get("bulk_bad") or b.get("other_keys") != 1:
+                    v.bad("bulk-reply", "truncated" if not b.get("json") else "content",
+                          "a client reading a %d-counter `g` reply in %d-byte reads with %d ms pauses got %d bytes: %s" % (h["bulk"], o.get("chunk", 0), o.get("pause_ms", 0), b.get("len", 0), b))
+                continue
             if rep is None:
                 continue
             if "<TIMEOUT>" in rep:
